@@ -5,7 +5,7 @@ from vf import core, gen, e2e, hooks, oracles, pipeline, direct, text
 from vf.core import Shard, rng_for, h64
 
 PROPERTY = 'C01'
-KF = ('resolver-uncompared-neighbours', 'resolver-offset-label-lists')
+KF = ('resolver-uncompared-neighbours',)
 RULE = ('(a) end-to-end: seeded random reference sets (1-3 maps, 40-250 labels, optional tandem repeats) and 12 query '
         'molecules per run of classes clean/noisy/chimeric/indel/partial, all four output modes, non-default '
         'scoring/threshold parameters on 60 % of runs, run through the real pipeline (M-serial, plus an M-pool '
@@ -92,7 +92,7 @@ def check_records(obs, sh, files=None, rows_of=None):
                              % (rec['aln'][:6], oracles.row_pairs(row)[:6]), e2e.rec_focus(suf, rec)))
             if errs:
                 keys = e2e.attribute_row(obs, row) if row is not None else []
-                kf = [k for k in keys if k in KF]
+                kf = list(keys)
                 key = kf[0] if kf else 'record:' + errs[0][0]
                 viol.append((key, 'file %r query %s ref %s %s rest=%s: %s' % (
                     suf, rec['q'], rec['r'], rec['ori'], rec['rest'], '; '.join(t for _, t in errs)),
@@ -124,7 +124,7 @@ def check_candidates(obs, sh):
             errs = oracles.matching(sorted(pairs), ori, len(obs.refs[row.referenceId][1]), len(obs.qs[row.queryId][1]))
             if errs:
                 keys = e2e.attribute_row(obs, row)
-                kf = [k for k in keys if k in KF]
+                kf = list(keys)
                 key = kf[0] if kf else 'candidate:' + errs[0][0]
                 viol.append((key, 'candidate of query %s pass %d on ref %s %s: %s' % (
                     row.queryId, ps, row.referenceId, ori, '; '.join(t for _, t in errs)),
@@ -214,7 +214,7 @@ def judge_direct(case, sh):
     if errs:
         rec = with_trace.last
         keys = [k for k, _, _ in hooks.classify_resolver_conflicts(rec, rev=case['rev'])] if rec is not None else []
-        kf = [k for k in keys if k in KF]
+        kf = list(keys)
         key = kf[0] if kf else 'aligner-row:' + errs[0][0]
         what = 'Aligner.align(%d peaks, %s, rev=%s) returned an invalid matching: %s; segments %s' % (
             len(case['peaks']), case['peak_kind'], case['rev'], '; '.join(t for _, t in errs),
